@@ -139,6 +139,26 @@ pub mod option_seckey_serde {
 	}
 }
 
+/// An optional key identifier from hex, refusing invalid hex instead of panicking
+/// (`Identifier`'s own deserializer unwraps the hex decoding)
+pub fn option_identifier_from_hex<'de, D>(
+	deserializer: D,
+) -> Result<Option<crate::grin_keychain::Identifier>, D::Error>
+where
+	D: Deserializer<'de>,
+{
+	use serde::de::{Error, IntoDeserializer};
+	match Option::<String>::deserialize(deserializer)? {
+		Some(s) => {
+			let s = checked_hex_string(s.into_deserializer())?;
+			crate::grin_keychain::Identifier::from_hex(&s)
+				.map(Some)
+				.map_err(|e| Error::custom(e.to_string()))
+		}
+		None => Ok(None),
+	}
+}
+
 /// Seralizes a byte string into base64
 pub fn as_base64<T, S>(bytes: T, serializer: S) -> Result<S::Ok, S::Error>
 where
